@@ -11,7 +11,7 @@
    unchanged and in order.  Trusted: numpy draws from the N(mean, cov) it is given. *)
 From mathcomp Require Import all_ssreflect all_fingroup all_algebra.
 From Coq Require Import ZArith QArith List.
-From TJ Require Import Base.Imp Base.Fops Gen.KernelPyx Model.KernelRun Proofs.KernelChar Proofs.KernelAlg Proofs.CompleteSquare Proofs.PostLayout.
+From TJ Require Import Base.Imp Base.Fops Gen.KernelPyx Model.KernelRun Proofs.KernelChar Proofs.KernelAlg Proofs.CompleteSquare Proofs.PostLayout Proofs.KernelLoops.
 Set Implicit Arguments. Unset Strict Implicit. Unset Printing Implicit Defensive.
 Import GRing.Theory.
 Local Open Scope ring_scope.
@@ -22,6 +22,20 @@ Theorem C03_same_state_as_marginal {F} (fo : fops F) (orc : oracles F) (nt nl fk
     (forall row s, k_posterior_one fo orc nt nl fk sK0 P0 mK t0 row s = likelihood_worker fo orc nt nl 1 (prelude row s)) /\
     (forall row s, k_test_worker_one fo orc nt nl fk sK0 P0 mK t0 row s = likelihood_worker fo orc nt nl 1 (prelude row s)).
 Proof. exact (posterior_same_prelude fo orc nt nl fk sK0 P0 mK t0). Qed.
+
+(* the generated posterior path, all sizes, every initial state: the linear system handed to the solver is
+   (Lambda^-1 + M^T C_s^-1 M) a = M^T C_s^-1 y + Lambda^-1 mu  (entrywise, sums in loop order), `a` holds the solver's answer,
+   Ainv is left holding that matrix, and the returned value is the marginal path's *)
+Theorem C03_worker_posterior {F} (fo : fops F) (orc : oracles F) (nt nl : nat) (s0 : kst) (Y U : arr2 F) (x : arr1 F) :
+  o_inv orc nl (Atmp_arg fo nt nl s0) = Some Y ->
+  o_lu orc nt (Btmp_arg fo nt nl s0) = Some U ->
+  o_solve orc nl (fun a b => if in2 nl nl a b then pAinv fo nt (v_M_T s0) (v_s_ivar s0) (v_Lambda s0) a b else Y a b)
+              (fun a => if Nat.ltb a nl then pa_rhs fo nt (v_M_T s0) (v_s_ivar s0) (v_mu s0) (v_Lambda s0) (v_rv s0) a else v_a s0 a) = Some x ->
+  snd (likelihood_worker fo orc (Z.of_nat nt) (Z.of_nat nl) 1%Z s0) = pvalue fo nt nl (v_M_T s0) (v_s_ivar s0) (v_mu s0) (v_rv s0) Y U /\
+  v_a (fst (likelihood_worker fo orc (Z.of_nat nt) (Z.of_nat nl) 1%Z s0)) = x /\
+  (forall i j, (i < nl)%coq_nat -> (j < nl)%coq_nat ->
+     v_Ainv (fst (likelihood_worker fo orc (Z.of_nat nt) (Z.of_nat nl) 1%Z s0)) i j = pAinv fo nt (v_M_T s0) (v_s_ivar s0) (v_Lambda s0) i j).
+Proof. exact (worker_posterior fo orc nt nl s0 Y U x). Qed.
 
 Theorem C03_layout_as_modelled : posterior_layout_as_modelled = true.
 Proof. exact posterior_layout. Qed.
@@ -68,6 +82,7 @@ Example C03_layout_ex :
 Proof. reflexivity. Qed.
 
 Print Assumptions C03_same_state_as_marginal.
+Print Assumptions C03_worker_posterior.
 Print Assumptions C03_layout_as_modelled.
 Print Assumptions C03_posterior_mean.
 Print Assumptions C03_exact_conditional.
